@@ -192,21 +192,31 @@ Definition bin_val (op : binop) (a b : Z) : Z :=
 
 Definition drop_name (s : series) : series := filter (fun l => negb (str_eqb (fst l) s_name)) s.
 
+(* match signature, "has a partner on the right", and the output sample of a matched left sample *)
+Definition bsig (on : bool) (ls : list str) (x : sample) : series := keep (negb on) ls (fst x).
+
+Definition bmatched (on : bool) (ls : list str) (vr : vector) (x : sample) : bool :=
+  existsb (fun y => series_eqb (bsig on ls y) (bsig on ls x)) vr.
+
+Definition bout (op : binop) (on : bool) (ls : list str) (vr : vector) (x : sample) : sample :=
+  (drop_name (bsig on ls x),
+   bin_val op (snd x)
+     (match find (fun y => series_eqb (bsig on ls y) (bsig on ls x)) vr with
+      | Some y => snd y | None => 0%Z end)).
+
 Definition bin_eval (op : binop) (on : bool) (ls : list str) (vl vr : vector) : option vector :=
-  let sig := fun x : sample => keep (negb on) ls (fst x) in
   match vl, vr with
   | [], _ => Some []                     (* short-circuit: nothing is going to match *)
   | _, [] => Some []
   | _, _ =>
-      if has_dup (map sig vr) then None   (* duplicate series on the right-hand side *)
+      if has_dup (map (bsig on ls) vr) then None   (* duplicate series on the right-hand side *)
       else
-        let matched := filter (fun x => existsb (fun y => series_eqb (sig y) (sig x)) vr) vl in
-        if has_dup (map sig matched) then None   (* many-to-one matching must be explicit *)
-        else Some (map (fun x =>
-                          (drop_name (sig x),
-                           bin_val op (snd x)
-                             (match find (fun y => series_eqb (sig y) (sig x)) vr with
-                              | Some y => snd y | None => 0%Z end))) matched)
+        let matched := filter (bmatched on ls vr) vl in
+        if has_dup (map (bsig on ls) matched) then None   (* many-to-one matching must be explicit *)
+        else
+          let out := map (bout op on ls vr) matched in
+          if has_dup (map fst out) then None   (* vector cannot contain metrics with the same labelset *)
+          else Some out
   end.
 
 (* None = the engine returns an error *)
